@@ -259,12 +259,14 @@ func (s *nspSocketStore) set(socket ServerSocket) {
 	s.mu.Lock()
 	defer s.mu.Unlock()
 	s.sockets[socket.ID()] = socket
+	vhook.Event("nspstore.set", "o", s, "sid", socket.ID())
 }
 
 func (s *nspSocketStore) remove(sid SocketID) {
 	s.mu.Lock()
 	defer s.mu.Unlock()
 	delete(s.sockets, sid)
+	vhook.Event("nspstore.remove", "o", s, "sid", sid)
 }
 
 // Send Engine.IO packets to a specific socket.
